@@ -73,6 +73,10 @@ std::string exponential_to_decimal_notation(jsoncons::string_view str)
                     state = format_number_state::fraction;
                     ++i;
                 }
+                else // not a number: leave the text as it is
+                {
+                    return std::string(str);
+                }
                 break;
             case format_number_state::fraction:
                 if ((c >= '0' && c <= '9'))
@@ -85,6 +89,10 @@ std::string exponential_to_decimal_notation(jsoncons::string_view str)
                 {
                     state = format_number_state::exponent_sign;
                     ++i;
+                }
+                else
+                {
+                    return std::string(str);
                 }
                 break;
             case format_number_state::exponent_sign:
@@ -109,6 +117,10 @@ std::string exponential_to_decimal_notation(jsoncons::string_view str)
                 {
                     exponent_str.push_back(c);
                     ++i;
+                }
+                else
+                {
+                    return std::string(str);
                 }
                 break;
             case format_number_state::err:
